@@ -220,11 +220,15 @@ def r4_stop_decision(ctx, cfg='A'):
         effs = it.effs
         if not any(e[0] == 'c' and e[1].name == _fes(cfg) + '::fetch_next' for e in effs):
             continue
-        n += 1
         atoms = it.atoms
+        # (the emptiness test may live in the event set: fetch_next -> Option, None = exhausted; nothing was fetched on that path)
+        opt = [a for a in atoms if a[0] == 'is' and peel(a[1])[0] == 'call' and peel(a[1])[1] == _fes(cfg) + '::fetch_next']
+        if any(a[2] == 'None' for a in opt):
+            continue
+        n += 1
         handled = any(e[0] == 'c' and e[1].callee == 'des::runtime::event::types::Event::handle' for e in effs)
         lim = [a for a in atoms if a[0] == 'bool' and a[1][0] == 'call' and a[1][1] == LIM + '::applies']
-        empt = [a for a in atoms if a[0] == 'bool' and a[1][0] == 'call' and a[1][1].endswith('::is_empty')]
+        empt = [a for a in atoms if a[0] == 'bool' and a[1][0] == 'call' and a[1][1].endswith('::is_empty')] + opt
         other = [a for a in atoms if a not in lim and a not in empt]
         ok = len(lim) == 1 and lim[0][2] is (not handled) and not other
         ctx.check(ok, 'stop-iff-limit',
